@@ -156,12 +156,14 @@ theorem sortNode_ok {n n1 : Node} (h : sortNode n = .ok n1) :
     ∃ idx, buildIndexes (sortChildren n.children) = .ok idx ∧
       n1 = n.setChildren (sortChildren n.children) idx := by
   unfold sortNode at h
-  simp only [bind, Except.bind, pure, Except.pure] at h
-  split at h
-  · simp at h
-  · rename_i idx hidx
-    simp at h
-    exact ⟨idx, hidx, h.symm⟩
+  by_cases hd : hasDupValues n.children = true
+  · simp [hd, bind, Except.bind, throw, throwThe, MonadExceptOf.throw] at h
+  · simp only [hd, bind, Except.bind, pure, Except.pure, Bool.false_eq_true, if_false] at h
+    split at h
+    · simp at h
+    · rename_i idx hidx
+      simp at h
+      exact ⟨idx, hidx, h.symm⟩
 
 theorem sortNode_IdxOk {n n1 : Node} (h : sortNode n = .ok n1) : IdxOk n1 := by
   obtain ⟨idx, hidx, rfl⟩ := sortNode_ok h
